@@ -94,6 +94,11 @@ class Base:
             raise e
         return mode
 
+    def _ret(self, op, obj):
+        """Record the very object handed back to the RunEngine (for response-identity oracles)."""
+        self.ledger.append(("devret", self.name, op, obj))
+        return obj
+
     def _status(self, op, mode, delay, on_done=None):
         if mode in ("fail-now", "fail-later"):
             e = Fault(f"{self.name}.{op} status failed ({mode})")
@@ -121,13 +126,13 @@ class Stageable_(Base):
         if self.staged and self.strict_stage:
             raise RuntimeError(f"{self.name}: redundant staging")
         self.staged = True
-        return [self]
+        return self._ret("stage", [self])
 
     def unstage(self):
         self._rec("unstage")
         self.unstage_calls += 1
         self.staged = False
-        return [self]
+        return self._ret("unstage", [self])
 
 
 class Motor(Stageable_):
@@ -148,7 +153,7 @@ class Motor(Stageable_):
 
         if self.delay is None:
             self.position = value
-        return self._status("set", mode, self.delay, on_done=arrive)
+        return self._ret("set", self._status("set", mode, self.delay, on_done=arrive))
 
     def stop(self, success=True):
         self._rec("stop", success)
@@ -156,7 +161,7 @@ class Motor(Stageable_):
 
     def read(self):
         self._rec("read")
-        return {self.name: {"value": self.position, "timestamp": 1.0 + self._counts.get("read", 0)}}
+        return self._ret("read", {self.name: {"value": self.position, "timestamp": 1.0 + self._counts.get("read", 0)}})
 
     def describe(self):
         return {self.name: {"source": "fake:" + self.name, "dtype": "number", "shape": []}}
@@ -173,7 +178,7 @@ class LocMotor(Motor):
 
     def locate(self):
         self._rec("locate")
-        return {"setpoint": self.position, "readback": self.position}
+        return self._ret("locate", {"setpoint": self.position, "readback": self.position})
 
 
 class Det(Stageable_):
@@ -192,7 +197,7 @@ class Det(Stageable_):
     def trigger(self):
         mode = self._rec("trigger")
         self.triggers += 1
-        return self._status("trigger", mode, self.delay)
+        return self._ret("trigger", self._status("trigger", mode, self.delay))
 
     def value(self):
         ps = [m.position for m in self.motors]
@@ -205,7 +210,7 @@ class Det(Stageable_):
         out = {self.name: {"value": self.value(), "timestamp": 2.0}}
         for k in self.extra_keys:
             out[k] = {"value": 1.0, "timestamp": 2.0}
-        return out
+        return self._ret("read", out)
 
     def describe(self):
         out = {self.name: {"source": "fake:" + self.name, "dtype": "number", "shape": []}}
@@ -298,12 +303,12 @@ class Flyer(Base):
     def kickoff(self):
         mode = self._rec("kickoff")
         self.kicked += 1
-        return self._status("kickoff", mode, self.delay)
+        return self._ret("kickoff", self._status("kickoff", mode, self.delay))
 
     def complete(self):
         mode = self._rec("complete")
         self.completed += 1
-        return self._status("complete", mode, self.delay)
+        return self._ret("complete", self._status("complete", mode, self.delay))
 
     def describe_collect(self):
         self._rec("describe_collect")
